@@ -24,6 +24,11 @@ package model
 //@   panics_iff [missing] !(criterion.Id in a.Criteria)
 //@   ensures [signed] result == signed(*a, *criterion)
 
+//@ pred observed(r utils.ValueRange, a []AlternativeWithCriteria, id string) =
+//@      (forall k int :: 0 <= k && k < len(a) ==> r.Min <= a[k].Criteria[id] && a[k].Criteria[id] <= r.Max)
+//@   && (len(a) > 0 ==> (exists k int :: 0 <= k && k < len(a) && r.Min == a[k].Criteria[id]) && (exists k int :: 0 <= k && k < len(a) && r.Max == a[k].Criteria[id]))
+//@   && (len(a) == 0 ==> r.Min == 0.0 && r.Max == 0.0)
+
 //@ func CriteriaValuesRange
 //@   property C14 C16 C17 C13
 //@   ensures [declared_first] criterion.ValuesRange != nil ==> result == criterion.ValuesRange
